@@ -121,6 +121,11 @@ class Gen:
         self.types.append({"name": "T%d" % (base + 5), "kind": "struct", "fields": [{"ident": "f0", "type": ("option", ("bool",)), "rename": None}, {"ident": "f1", "type": ("option", ("string",)), "rename": r.choice([None, "o p t"])}]})
         self.types.append({"name": "T%d" % (base + 6), "kind": "struct", "cover_none": True, "fields": [{"ident": "f0", "type": ("option", ("named", base + 5)), "rename": None}, {"ident": "f1", "type": ("vec", ("option", ("named", base + 5))), "rename": None}]})
         self.types.append({"name": "T%d" % (base + 7), "kind": "tuple", "cover_none": True, "fields": [{"type": ("option", ("named", base + 5))}, {"type": ("option", ("named", base + 4))}]})
+        # an enum in which only SOME variants are renamed (the decision is per variant), one rename equal to a sibling's identifier
+        self.types.append({"name": "T%d" % (base + 8), "kind": "enum", "cover_all": True, "variants": [{"ident": "V0", "rename": "y"}, {"ident": "V1", "rename": None}, {"ident": "V2", "rename": "V1x"}, {"ident": "V3", "rename": None}]})
+        # member names that differ only in letter case are different members
+        self.types.append({"name": "T%d" % (base + 9), "kind": "struct", "cover_case": True, "fields": [{"ident": "f0", "type": ("int", "i32"), "rename": "id"}, {"ident": "f1", "type": ("int", "i32"), "rename": "ID"}, {"ident": "f2", "type": ("option", ("int", "i32")), "rename": "Id"}, {"ident": "f3", "type": ("string",), "rename": "x"}, {"ident": "f4", "type": ("string",), "rename": "X"}]})
+        self.types.append({"name": "T%d" % (base + 10), "kind": "map", "cover_case": True, "fields": [{"ident": "f0", "type": ("int", "i32"), "rename": "key"}, {"ident": "f1", "type": ("int", "i32"), "rename": "KEY"}]})
 
     def decl(self, t):
         if t["kind"] in ("struct", "map"):
@@ -288,6 +293,11 @@ def gen_program(seed, index, nvalues, nliterals, wide=False):
             k1 = rust_str(inner["fields"][1]["rename"] if inner["fields"][1]["rename"] is not None else "f1")
             exp_empty = "Value::Object(vec![(\"f0\".to_string(), Value::Null), (%s.to_string(), Value::Null)])" % k1
             forced.append((t, ("%s { f0: None, f1: vec![None, Some(%s), None] }" % (t["name"], some_empty), "Value::Object(vec![(\"f0\".to_string(), Value::Null), (\"f1\".to_string(), Value::Array(vec![Value::Null, %s, Value::Null]))])" % exp_empty)))
+        if t.get("cover_case"):
+            if len(t["fields"]) == 5:
+                forced.append((t, ("%s { f0: 7, f1: 4242, f2: None, f3: \"lower\".to_string(), f4: \"UPPER\".to_string() }" % t["name"], "Value::Object(vec![(\"id\".to_string(), Value::Number(7.0)), (\"ID\".to_string(), Value::Number(4242.0)), (\"Id\".to_string(), Value::Null), (\"x\".to_string(), Value::String(\"lower\".to_string())), (\"X\".to_string(), Value::String(\"UPPER\".to_string()))])")))
+            else:
+                forced.append((t, ("%s { f0: 1, f1: 2 }" % t["name"], "Value::Object(vec![(\"key\".to_string(), Value::Number(1.0)), (\"KEY\".to_string(), Value::Number(2.0))])")))
         if t.get("cover_none") and t["kind"] == "tuple":
             forced.append((t, ("%s(None, None)" % t["name"], "Value::Array(vec![Value::Null, Value::Null])")))
     for vi in range(nvalues + len(forced)):
